@@ -9,8 +9,9 @@ from pathlib import Path
 from harness import common, rules
 from harness.common import Ctx, NCPU, s2n, n2s
 
-NAMES = ["A", "B", "core", "api", "db_layer", "x1", "Service", "util", "m2", "m10", "cache", "auth", "Z9", "w", "queue", "mail"]
-DOTTED = ["src.a", "src.b", "src.a.x", "pkg.core", "pkg.core.db", "app.ui", "src.app.core.domain.api", "src.app.core.domain.api.v2", "a.b.c.d.e.f.g", "org.example.project.subsystem.component.impl"]
+NAMES = ["A", "B", "core", "api", "db_layer", "x1", "Service", "util", "m2", "m10", "cache", "auth", "Z9", "w", "queue", "mail",
+         "gr\u00f6\u00dfe", "donn\u00e9es", "\u043c\u043e\u0434\u0435\u043b\u044c", "na\u00efve_2"]      # legal identifiers outside ASCII
+DOTTED = ["app.\u043c\u043e\u0434\u0435\u043b\u044c", "src.gr\u00f6\u00dfe.x", "src.a", "src.b", "src.a.x", "pkg.core", "pkg.core.db", "app.ui", "src.app.core.domain.api", "src.app.core.domain.api.v2", "a.b.c.d.e.f.g", "org.example.project.subsystem.component.impl"]
 ALIASES = ["a1", "c", "svc", "k9", "alias_b", "zz"]
 NOISE_IN = ["' a comment", "title My Diagram", "skinparam monochrome true", "left to right direction", "hide empty members", "", "scale 2"]
 NOISE_OUT = ["Some text before", "[Ghost] --> [Other]", "component Phantom", "# markdown heading", "", "see also the docs"]
